@@ -41,6 +41,11 @@ KANI = {
     'C12': [K('precis-profiles', 'common::verif_kani::tbl_zs'), K('precis-profiles', 'common::verif_kani::zs_space')],
     'C14': [K('precis-core', CC + t) for t in CORE_TABLES_QUICK] + [K('precis-core', CC + t, False) for t in CORE_TABLES_SLOW]
            + [K('precis-core', 'stringclasses::verif_kani::non_scalar_never_valid', False)],
+    # end-to-end for the two pinned data sets: files -> parse -> generate -> emit -> compile -> lookup == UCD oracle
+    'C15': [K('precis-profiles', 'common::verif_kani::tbl_zs'), K('precis-profiles', 'usernames::verif_kani::tbl_width'),
+            K('precis-core', CC + 'tbl_is_hebrew'), K('precis-core', CC + 'tbl_is_virama')]
+           + [K('precis-core', CC + t, False) for t in CORE_TABLES_QUICK + CORE_TABLES_SLOW + [c for c in CTX_TABLES if c not in ('tbl_is_hebrew', 'tbl_is_virama')]]
+           + [K('precis-profiles', 'bidi::verif_kani::tbl_bidi', False)],
     'C18': [K('precis-core', 'verif_kani_codepoints::codepoints_cmp_coherent'),
             K('precis-core', 'verif_kani_codepoints::codepoints_cmp_empty_entries'),
             K('precis-core', 'verif_kani_codepoints::codepoints_order_monotone')],
